@@ -159,6 +159,7 @@ extern "C" int LLVMFuzzerInitialize(int *, char ***) {
     }
     Ctx::inproc().active = true;
     atexit(dump_stats);
+    dump_stats();      // a sanitizer abort skips exit handlers: keep a (possibly stale) record on disk from the start
     return 0;
 }
 
@@ -184,7 +185,7 @@ extern "C" int LLVMFuzzerTestOneInput(const uint8_t *data, size_t size) {
     if (!ip.done || ip.kind == "ok" || ip.kind == "skip" || ip.kind == "harness") {
         g_st.ok++;
         if (ip.nontrivial) { g_st.nontrivial++; if (g_st.distinct_nt.insert(fnv64(text)).second && g_st.samples.size() < 6 && text.size() < 1500) g_st.samples.push_back(text); }
-        if ((g_st.runs & 0x3fff) == 0) dump_stats();
+        if ((g_st.runs & 0x3ff) == 0) dump_stats();
         return 0;
     }
     g_st.failed++;
